@@ -60,16 +60,45 @@ func cmdDump(args []string) {
 }
 
 // verifyFunc generates and discharges the obligations of one function.
-func verifyFunc(w *world, fn *ssa.Function, lite bool, opt dischargeOpts) (g *gen, res []result, err error) {
+func verifyFunc(w *world, fn *ssa.Function, lite bool, depth int, exclude []string, opt dischargeOpts) (g *gen, res []result, err error) {
 	defer func() {
 		if r := recover(); r != nil {
 			err = fmt.Errorf("engine failure on %s: %v\n%s", fnKeyQ(fn), r, debug.Stack())
 		}
 	}()
-	g = newGen(w, fn, lite)
-	fc := g.newFnCtx(fn, "", 0, nil)
-	fc.bindParamsFresh()
-	fc.run()
+	// pass 1 discovers loops whose body havocs the whole heap; pass 2 generates the obligations
+	var fc *fnCtx
+	havocLoops := map[*ssa.BasicBlock]bool{}
+	for pass := 0; ; pass++ {
+		if pass > 6 {
+			panic("loop havoc discovery did not converge")
+		}
+		g = newGen(w, fn, lite)
+		if depth >= 0 {
+			g.maxDepth = depth
+		}
+		g.loopHavocAll = havocLoops
+		fc = g.newFnCtx(fn, "", 0, nil)
+		fc.bindParamsFresh()
+		fc.run()
+		grew := false
+		for h := range g.loopHavocSeen {
+			if !havocLoops[h] {
+				grew = true
+			}
+		}
+		if !grew {
+			break
+		}
+		nh := map[*ssa.BasicBlock]bool{}
+		for h := range havocLoops {
+			nh[h] = true
+		}
+		for h := range g.loopHavocSeen {
+			nh[h] = true
+		}
+		havocLoops = nh
+	}
 	g.finishTop(fc)
 	// vacuity guard: some return site (or, for functions that only panic, the entry) must be reachable under the assumptions
 	if len(fc.rets) > 0 {
@@ -82,6 +111,23 @@ func verifyFunc(w *world, fn *ssa.Function, lite bool, opt dischargeOpts) (g *ge
 			cond = "(or " + strings.Join(rs, " ") + ")"
 		}
 		g.oblige(obligation{name: "cover:" + fnKeyQ(fn) + ":some-return-reachable", kind: "cover", guard: "true", cond: cond, cover: true})
+	}
+	if len(exclude) > 0 {
+		var kept []obligation
+		for _, o := range g.obls {
+			drop := false
+			for _, p := range exclude {
+				if globMatch(p, o.name) {
+					drop = true
+				}
+			}
+			if drop {
+				g.excluded = append(g.excluded, o.name)
+			} else {
+				kept = append(kept, o)
+			}
+		}
+		g.obls = kept
 	}
 	res = g.discharge(sanitizeSym(fnKeyQ(fn)), opt)
 	return g, res, nil
@@ -96,6 +142,7 @@ func cmdFn(args []string) {
 	out := fs.String("out", "/tmp/govc-out", "smt output dir")
 	replay := fs.Bool("replay", false, "run replays for failing obligations")
 	verbose := fs.Bool("v", false, "print discharged obligations too")
+	depth := fs.Int("depth", -1, "inline depth for callees without contract (-1 = default)")
 	fs.Parse(args)
 	t0 := time.Now()
 	w, err := loadWorld(strings.Split(*pkgs, ","))
@@ -112,7 +159,7 @@ func cmdFn(args []string) {
 			continue
 		}
 		t1 := time.Now()
-		g, res, err := verifyFunc(w, fn, *lite, dischargeOpts{dir: *out, timeout: *timeout, parallel: 14, keep: *keep})
+		g, res, err := verifyFunc(w, fn, *lite, *depth, nil, dischargeOpts{dir: *out, timeout: *timeout, parallel: 14, keep: *keep})
 		if err != nil {
 			fmt.Println(err)
 			failed++
@@ -121,6 +168,9 @@ func cmdFn(args []string) {
 		nf := 0
 		for _, r := range res {
 			total++
+			if r.status == "cover-unknown" {
+				continue
+			}
 			if r.status != "unsat" {
 				failed++
 				nf++
@@ -155,19 +205,54 @@ func cmdFn(args []string) {
 // property checks
 
 type propUnit struct {
-	Func    string `json:"func"`
-	Lite    bool   `json:"lite,omitempty"`
-	Bounded string `json:"bounded,omitempty"` // non-empty: this unit is a bounded stand-in; the text states the bound
-	Tier    string `json:"tier,omitempty"`    // "thorough": only in the thorough tier
+	Func    string   `json:"func"`
+	Lite    bool     `json:"lite,omitempty"`
+	Bounded string   `json:"bounded,omitempty"` // non-empty: this unit is a bounded stand-in; the text states the bound
+	Tier    string   `json:"tier,omitempty"`    // "thorough": only in the thorough tier
+	Depth   *int     `json:"depth,omitempty"`   // inline depth for callees without contract (default 4)
+	Exclude []string `json:"exclude,omitempty"` // obligation name patterns (* wildcard) generated but NOT claimed; listed in the evidence
+	Why     string   `json:"why_excluded,omitempty"`
+}
+
+func globMatch(pat, s string) bool {
+	parts := strings.Split(pat, "*")
+	if len(parts) == 1 {
+		return pat == s
+	}
+	if !strings.HasPrefix(s, parts[0]) {
+		return false
+	}
+	s = s[len(parts[0]):]
+	for i := 1; i < len(parts)-1; i++ {
+		j := strings.Index(s, parts[i])
+		if j < 0 {
+			return false
+		}
+		s = s[j+len(parts[i]):]
+	}
+	return strings.HasSuffix(s, parts[len(parts)-1])
+}
+
+func (u propUnit) depth() int {
+	if u.Depth != nil {
+		return *u.Depth
+	}
+	return -1
+}
+
+type propGroup struct {
+	Packages []string   `json:"packages"`
+	Units    []propUnit `json:"units"`
 }
 
 type propConfig struct {
-	ID          string     `json:"id"`
-	Packages    []string   `json:"packages"`
-	Units       []propUnit `json:"units"`
-	Assumptions []string   `json:"assumptions"`
-	NotDecided  []string   `json:"not_decided"`
-	Timeout     int        `json:"timeout,omitempty"`
+	ID          string      `json:"id"`
+	Packages    []string    `json:"packages"`
+	Units       []propUnit  `json:"units"`
+	Groups      []propGroup `json:"groups"`
+	Assumptions []string    `json:"assumptions"`
+	NotDecided  []string    `json:"not_decided"`
+	Timeout     int         `json:"timeout,omitempty"`
 }
 
 type knownFinding struct {
@@ -255,13 +340,11 @@ func cmdCheck(args []string) {
 	if *tier == "thorough" {
 		timeout *= 6
 	}
-	w, err := loadWorld(pc.Packages)
-	if err != nil {
-		fmt.Fprintln(os.Stderr, "cannot load packages:", err)
-		fmt.Printf("UNDECIDED property=%s the tree does not load with -tags verif\n", pc.ID)
-		os.Exit(2)
+	groups := pc.Groups
+	if len(pc.Units) > 0 {
+		groups = append([]propGroup{{pc.Packages, pc.Units}}, groups...)
 	}
-	loadS := time.Since(t0).Seconds()
+	loadS := 0.0
 	kfs := loadKnownFindings()
 	smtDir, _ := os.MkdirTemp("", "govc-"+pc.ID+"-")
 	defer os.RemoveAll(smtDir)
@@ -277,94 +360,105 @@ func cmdCheck(args []string) {
 	}
 	var (
 		total, discharged, violations, knownN, boundedTotal, boundedDischarged, coverN int
-		samples                                                                     []sample
-		funcs                                                                       []string
-		byBackend                                                                   = map[string]int{}
-		solverTime                                                                  float64
-		unmodelled                                                                  = map[string]map[string]int{}
-		trusted                                                                     = map[string]bool{}
-		assumedCon                                                                  = map[string]bool{}
-		boundedNotes                                                                []string
-		knownLines                                                                  []string
-		violationLines                                                              []string
-		engineErrors                                                                []string
-		replaysRun                                                                  int
+		samples                                                                        []sample
+		funcs                                                                          []string
+		byBackend                                                                      = map[string]int{}
+		solverTime                                                                     float64
+		unmodelled                                                                     = map[string]map[string]int{}
+		trusted                                                                        = map[string]bool{}
+		assumedCon                                                                     = map[string]bool{}
+		boundedNotes                                                                   []string
+		knownLines                                                                     []string
+		violationLines                                                                 []string
+		engineErrors                                                                   []string
+		replaysRun                                                                     int
+		excludedObl                                                                    []string
 	)
-	for _, u := range pc.Units {
-		if u.Tier == "thorough" && *tier != "thorough" {
-			continue
-		}
-		fn := w.findFunc(u.Func)
-		if fn == nil {
-			engineErrors = append(engineErrors, "function not found: "+u.Func)
-			continue
-		}
-		funcs = append(funcs, u.Func)
-		g, res, err := verifyFunc(w, fn, u.Lite, dischargeOpts{dir: smtDir, timeout: timeout, parallel: 14, cross: *tier == "thorough", keep: *keep})
+	for _, grp := range groups {
+		tl := time.Now()
+		w, err := loadWorld(grp.Packages)
 		if err != nil {
-			engineErrors = append(engineErrors, err.Error())
-			continue
+			fmt.Fprintln(os.Stderr, "cannot load packages:", err)
+			fmt.Printf("UNDECIDED property=%s the tree does not load with -tags verif\n", pc.ID)
+			os.Exit(2)
 		}
-		if len(g.unmodelled) > 0 {
-			unmodelled[u.Func] = g.unmodelled
-		}
-		for k := range g.trusted {
-			trusted[k] = true
-		}
-		for k := range g.assumedCon {
-			assumedCon[k] = true
-		}
-		if u.Bounded != "" {
-			boundedNotes = append(boundedNotes, u.Func+": "+u.Bounded)
-		}
-		if len(res) <= 1 {
-			engineErrors = append(engineErrors, "no obligations generated for "+u.Func)
-		}
-		for _, r := range res {
-			solverTime += r.secs
-			if r.obl.cover {
-				coverN++
-				if r.status == "vacuous" {
-					engineErrors = append(engineErrors, "vacuous assumptions: "+r.obl.name)
-				}
+		loadS += time.Since(tl).Seconds()
+		for _, u := range grp.Units {
+			if u.Tier == "thorough" && *tier != "thorough" {
 				continue
 			}
-			ok := r.status == "unsat"
-			if ok {
-				byBackend[r.solver]++
+			fn := w.findFunc(u.Func)
+			if fn == nil {
+				engineErrors = append(engineErrors, "function not found: "+u.Func)
+				continue
 			}
-			if len(samples) < 12 || (!ok && len(samples) < 40) {
-				samples = append(samples, sample{r.obl.name, map[bool]string{true: "discharged", false: r.status}[ok], r.solver, float64(int(r.secs*1000)) / 1000, r.bytes})
+			funcs = append(funcs, u.Func)
+			g, res, err := verifyFunc(w, fn, u.Lite, u.depth(), u.Exclude, dischargeOpts{dir: smtDir, timeout: timeout, parallel: 14, cross: *tier == "thorough", keep: *keep})
+			if err != nil {
+				engineErrors = append(engineErrors, err.Error())
+				continue
 			}
-			if !ok {
-				if kf := matchFinding(kfs, pc.ID, r.obl.name); kf != nil {
-					knownN++
-					knownLines = append(knownLines, fmt.Sprintf("KNOWN-FINDING: property=%s %s: %s", pc.ID, r.obl.name, kf.what))
-					continue
-				}
+			if len(g.unmodelled) > 0 {
+				unmodelled[u.Func] = g.unmodelled
+			}
+			for k := range g.trusted {
+				trusted[k] = true
+			}
+			for k := range g.assumedCon {
+				assumedCon[k] = true
 			}
 			if u.Bounded != "" {
-				boundedTotal++
-				if ok {
-					boundedDischarged++
-				}
-			} else {
-				total++
-				if ok {
-					discharged++
-				}
+				boundedNotes = append(boundedNotes, u.Func+": "+u.Bounded)
 			}
-			if !ok {
-				violations++
-				ro := writeReplay(w, g, r, pc.ID, replayDir, replaysRun < 4)
-				if ro.detail != "no model" && ro.detail != "not replayable" {
-					replaysRun++
+			for _, e := range g.excluded {
+				excludedObl = append(excludedObl, e+" ("+u.Why+")")
+			}
+			for _, r := range res {
+				solverTime += r.secs
+				if r.obl.cover {
+					coverN++
+					if r.status == "vacuous" {
+						engineErrors = append(engineErrors, "vacuous assumptions: "+r.obl.name)
+					}
+					continue
 				}
-				line := fmt.Sprintf("VIOLATION property=%s replay=%s obligation=%s solver=%s", pc.ID, ro.path, r.obl.name, r.status)
-				if !ro.confirmed {
-					line += " no-failing-input-found"
+				ok := r.status == "unsat"
+				if ok {
+					byBackend[r.solver]++
 				}
-				violationLines = append(violationLines, line)
+				if len(samples) < 12 || (!ok && len(samples) < 40) {
+					samples = append(samples, sample{r.obl.name, map[bool]string{true: "discharged", false: r.status}[ok], r.solver, float64(int(r.secs*1000)) / 1000, r.bytes})
+				}
+				if !ok {
+					if kf := matchFinding(kfs, pc.ID, r.obl.name); kf != nil {
+						knownN++
+						knownLines = append(knownLines, fmt.Sprintf("KNOWN-FINDING: property=%s %s: %s", pc.ID, r.obl.name, kf.what))
+						continue
+					}
+				}
+				if u.Bounded != "" {
+					boundedTotal++
+					if ok {
+						boundedDischarged++
+					}
+				} else {
+					total++
+					if ok {
+						discharged++
+					}
+				}
+				if !ok {
+					violations++
+					ro := writeReplay(w, g, r, pc.ID, replayDir, replaysRun < 4)
+					if ro.detail != "no model" && ro.detail != "not replayable" {
+						replaysRun++
+					}
+					line := fmt.Sprintf("VIOLATION property=%s replay=%s obligation=%s solver=%s", pc.ID, ro.path, r.obl.name, r.status)
+					if !ro.confirmed {
+						line += " no-failing-input-found"
+					}
+					violationLines = append(violationLines, line)
+				}
 			}
 		}
 	}
@@ -391,27 +485,28 @@ func cmdCheck(args []string) {
 	}
 	sort.Strings(ac)
 	cov := map[string]any{
-		"obligations":                 total,
-		"discharged":                  discharged,
-		"checker_cmd":                 fmt.Sprintf("/verif/check.sh %s %s", pc.ID, *tier),
-		"trusted_base":                tb,
-		"samples":                     samples,
-		"functions_under_contract":    funcs,
-		"by_backend":                  byBackend,
-		"solver_time_s":               float64(int(solverTime*100)) / 100,
-		"load_ssa_s":                  float64(int(loadS*100)) / 100,
-		"cover_checks":                coverN,
-		"unmodelled_instructions":     unmodelled,
-		"callee_contracts_assumed":    ac,
-		"known_finding_obligations":   knownN,
-		"bounded_obligations":         boundedTotal,
-		"bounded_discharged":          boundedDischarged,
-		"bounded_standins":            boundedNotes,
-		"not_decided_by_this_check":   pc.NotDecided,
-		"engine_errors":               engineErrors,
-		"per_query_timeout_s":         timeout,
-		"integer_semantics":           "Go fixed-width bit-vectors (wrap-around), no mathematical-integer idealisation",
-		"explanation":                 "each obligation is one SMT query generated from go/ssa of /repo's working tree; discharged = unsat",
+		"obligations":                           total,
+		"discharged":                            discharged,
+		"checker_cmd":                           fmt.Sprintf("/verif/check.sh %s %s", pc.ID, *tier),
+		"trusted_base":                          tb,
+		"samples":                               samples,
+		"functions_under_contract":              funcs,
+		"by_backend":                            byBackend,
+		"solver_time_s":                         float64(int(solverTime*100)) / 100,
+		"load_ssa_s":                            float64(int(loadS*100)) / 100,
+		"cover_checks":                          coverN,
+		"unmodelled_instructions":               unmodelled,
+		"callee_contracts_assumed":              ac,
+		"known_finding_obligations":             knownN,
+		"bounded_obligations":                   boundedTotal,
+		"bounded_discharged":                    boundedDischarged,
+		"bounded_standins":                      boundedNotes,
+		"not_decided_by_this_check":             pc.NotDecided,
+		"obligations_generated_but_not_claimed": excludedObl,
+		"engine_errors":                         engineErrors,
+		"per_query_timeout_s":                   timeout,
+		"integer_semantics":                     "Go fixed-width bit-vectors (wrap-around), no mathematical-integer idealisation",
+		"explanation":                           "each obligation is one SMT query generated from go/ssa of /repo's working tree; discharged = unsat",
 	}
 	assumptions := append([]string{
 		"64-bit platform; every slice/string/map length is at most 2^40",
@@ -428,6 +523,10 @@ func cmdCheck(args []string) {
 	os.WriteFile(filepath.Join(verifDir, "evidence", pc.ID+".json"), eb, 0o644)
 	fmt.Printf("property %s (%s): %d obligations, %d discharged, %d known findings, %d bounded (%d discharged), %d functions, %.1fs\n",
 		pc.ID, *tier, total, discharged, knownN, boundedTotal, boundedDischarged, len(funcs), wall)
+	if total+boundedTotal == 0 {
+		fmt.Println("ENGINE-ERROR: no obligations generated at all (vacuous check)")
+		os.Exit(2)
+	}
 	if violations > 0 {
 		os.Exit(1)
 	}
